@@ -17,6 +17,22 @@ from ..typing import ID
 from .tree_model import TimeTreeModel, TreeModel
 
 
+def _integral_exp(growth: torch.Tensor, start: torch.Tensor, end: torch.Tensor):
+    r"""Returns :math:`\int_{start}^{end} e^{g t} dt`, continuous at :math:`g=0`.
+
+    Written as :math:`e^{g\,start} (end-start)\,\mathrm{expm1}(x)/x` with
+    :math:`x=g(end-start)`: no cancellation for small :math:`|x|` and the limit
+    :math:`end-start` at :math:`x=0`.
+    """
+    duration = end - start
+    x = growth * duration
+    is_zero = x == 0.0
+    x_safe = torch.where(is_zero, torch.ones_like(x), x)
+    # 1 + x/2 is the value (1) and the slope (1/2) of expm1(x)/x at x = 0
+    ratio = torch.where(is_zero, 1.0 + 0.5 * x, torch.expm1(x_safe) / x_safe)
+    return torch.exp(growth * start) * duration * ratio
+
+
 class AbstractCoalescentDistribution(Distribution):
     arg_constraints = {
         'theta': constraints.positive,
@@ -296,15 +312,17 @@ class ExponentialCoalescent(Distribution):
         heights_sorted = torch.gather(node_heights, -1, indices)
         node_mask_sorted = torch.gather(node_mask, -1, indices)
         lineage_count = node_mask_sorted.cumsum(-1)[..., :-1]
-        # TODO: deal with growth==0
-        height_growth_exp = torch.exp(heights_sorted * self.growth)
-        integral = (height_growth_exp[..., 1:] - height_growth_exp[..., :-1]) / (
-            self.theta * self.growth
+        integral = (
+            _integral_exp(
+                self.growth, heights_sorted[..., :-1], heights_sorted[..., 1:]
+            )
+            / self.theta
         )
         lchoose2 = lineage_count * (lineage_count - 1) / 2.0
-        log_thetas = torch.log(
-            self.theta * torch.exp(-heights_sorted * self.growth)
-        ) * (node_mask_sorted == -1)
+        # log N(t) = log(theta) - growth t (exponentiating first overflows)
+        log_thetas = (torch.log(self.theta) - heights_sorted * self.growth) * (
+            node_mask_sorted == -1
+        )
         return torch.sum(-lchoose2 * integral - log_thetas[..., 1:], -1, keepdim=True)
 
 
@@ -872,9 +890,13 @@ class PiecewiseExponentialCoalescentGrid(Distribution):
         grid_start = grid0.gather(-1, indices_intervals)
         pop_size_start = log_pop_size_grid.gather(-1, indices_intervals).exp()
         integral = (
-            torch.exp(growth_intervals * (grid_heights_sorted[..., 1:] - grid_start))
-            - torch.exp(growth_intervals * (grid_heights_sorted[..., :-1] - grid_start))
-        ) / (pop_size_start * growth_intervals)
+            _integral_exp(
+                growth_intervals,
+                grid_heights_sorted[..., :-1] - grid_start,
+                grid_heights_sorted[..., 1:] - grid_start,
+            )
+            / pop_size_start
+        )
 
         return -torch.sum(
             lchoose2 * integral,
